@@ -24,12 +24,13 @@ ASSUMPTIONS = ["ValueError (no valid endpoints / one-cell component) and the gri
                "parallel generation content may depend on the schedule; only validity, count and order of indices are judged"]
 NSHARDS = {"quick": 16, "thorough": 16}
 THRESHOLDS = {"quick": {
-    "c03:datasets": 300, "c03:items": 2500, "c03:parallel-runs": 20, "c03:distinct-schedules": 10, "c03:opt:allowed_start": 100,
+    "c03:datasets": 300, "c03:items": 2500, "c03:parallel-runs": 20, "c03:distinct-schedules?c03:schedule-probe-attached": 10, "c03:opt:allowed_start": 100,
     "c03:opt:allowed_end": 100, "c03:opt:deadend_start:nontrivial": 100, "c03:opt:deadend_end:nontrivial": 100,
     "c03:opt:endpoints_not_equal": 100, "c03:opt:deadend+allowed-same-endpoint:nontrivial": 30, "c03:opt:none": 500, "c03:equal-endpoints-allowed-and-seen": 5, "c03:empty-dataset": 5,
-    "c03:from_config": 30, "c03:shared-cache-requests": 12, "c03:many-mazes": 20, "c03:large-grid": 15, "c03:worker-pids": 30, "hits:_generate_maze_helper": 1000,
+    "c03:from_config": 30, "c03:shared-cache-requests": 12, "c03:many-mazes": 20, "c03:large-grid": 15, "c03:worker-pids?c03:schedule-probe-attached": 30,
+    "hits:_generate_maze_helper?c03:schedule-probe-attached": 1000,
 }}
-THRESHOLDS["thorough"] = {**THRESHOLDS["quick"], "c03:datasets": 4000, "c03:parallel-runs": 300, "c03:distinct-schedules": 100}
+THRESHOLDS["thorough"] = {**THRESHOLDS["quick"], "c03:datasets": 4000, "c03:parallel-runs": 300, "c03:distinct-schedules?c03:schedule-probe-attached": 100}
 ANCHORS = ["maze_dataset.dataset.maze_dataset:_generate_maze_helper",
            "maze_dataset.dataset.maze_dataset:_maze_gen_init_worker",
            "maze_dataset.dataset.maze_dataset:MazeDataset.generate",
@@ -156,7 +157,16 @@ def run(ctx):
             time.sleep(float(jit.random()) * 0.003)
             ctx.child_event(index=int(idx) if idx is not None else -1)
 
-    P.on_start(md._generate_maze_helper, on_helper_start, name="_generate_maze_helper")
+    helper = getattr(md, "_generate_maze_helper", None)
+    probe_ok = callable(helper)
+    if probe_ok:
+        try:
+            P.on_start(helper, on_helper_start, name="_generate_maze_helper")
+        except Exception:  # noqa: BLE001
+            probe_ok = False
+    # the schedule log (task -> worker) hangs on a private per-maze helper; if a refactoring removed it, schedules are simply
+    # not observed (the items of parallel datasets are judged all the same)
+    ctx.tally("c03:schedule-probe-attached" if probe_ok else "c03:schedule-probe-unavailable(not judged)")
     signal.signal(signal.SIGALRM, _alarm)
 
     n_cfg = 640 if ctx.quick else 6400
@@ -241,8 +251,9 @@ def run(ctx):
                 schedules.add((n_mazes, sched))
                 ctx.nontrivial("schedule", n_mazes, sched)
             ctx.tally("c03:worker-pids", len(pids))
-            ctx.check(sorted(byidx) == list(range(n_mazes)), "C03/parallel-task-indices-wrong",
-                      f"worker log saw indices {sorted(byidx)} for n_mazes={n_mazes}", case)
+            if probe_ok and byidx:
+                ctx.check(sorted(byidx) == list(range(n_mazes)), "C03/parallel-task-indices-wrong",
+                          f"worker log saw indices {sorted(byidx)} for n_mazes={n_mazes}", case)
             if len(ctx.samples) < 3:
                 ctx.sample(dict(case=case, task_to_worker=sched, distinct_pids=len(pids)))
         if n_mazes == 0:
